@@ -114,7 +114,7 @@ func cmdCheck(args []string) int {
 		fmt.Println("ENGINE-ERROR: contract files do not parse")
 		return 2
 	}
-	cfg := &solverCfg{quickMs: 3000, fullMs: 10000, workers: 16, seed: seed, keepDir: *keep}
+	cfg := &solverCfg{quickMs: 4000, fullMs: 20000, workers: 16, seed: seed, keepDir: *keep}
 	if *tier == "thorough" {
 		cfg.quickMs, cfg.fullMs, cfg.allAgree = 10000, 60000, false
 	}
